@@ -200,7 +200,10 @@ def build(case):
             # inst == "named": only through the supplying / observing probes below
             # ---- suppliers
             for k in supply:
-                if how == "tweak":
+                if how == "overlay-tag":
+                    # a plain Overlay (no auto-instrumentation) whose selector reaches the variable through its tag
+                    enter(Overlay.tweaking({select("f > $v:@Param", env=ns): supplied[k]}))
+                elif how == "tweak":
                     if inst != "all":
                         ns["f"] = tooled(ns["f"]) if not hasattr(ns["f"], "__ptera_info__") else ns["f"]
                     enter(Overlay.tweaking({select(f"f > {k}", env=ns): supplied[k]}))
@@ -282,6 +285,9 @@ def cases(tier, seed):
                     cs.append({"id": f"{tname}:inst={inst}:supply={'+'.join(supply) or 'none'}:{how}",
                                "params": {"template": tname, "inst": inst, "supply": supply, "how": how},
                                "budget_s": 120 if th else 60})
+    for inst in ("other", "all"):  # ("named" would leave the function entirely uninstrumented: plain Python, not in scope)
+        cs.append({"id": f"decl_late:inst={inst}:supply=w:overlay-tag",
+                   "params": {"template": "decl_late", "inst": inst, "supply": ["w"], "how": "overlay-tag"}, "budget_s": 60})
     cs.append({"id": "decl:inst=all:supply=none:twin", "params": {"template": "decl", "inst": "all", "supply": [], "how": "-"},
                "vacuity_twin": True, "stop_on_refute": True, "budget_s": 30})
     return cs
